@@ -81,6 +81,22 @@ CHECKS.update({
             "DESIGN.md 4 C02"),
 })
 
+CHECKS.update({
+    "C16": ("Hypothesis generated search; metamorphic monotonicity relation over constructed (loose, strict, stricter) parameter chains",
+            "For each threshold-driven test a data case is run under a chain of parameter sets tightened by construction "
+            "(spans nested, thresholds moved in the strict direction, absent->given); severity GOOD<SUSPECT<FAIL must "
+            "never decrease and the UNKNOWN/MISSING set must stay identical for all three pairs of the chain. Needs no "
+            "reference model, so it also covers parameter regions the per-test models treat as ambiguous.",
+            "dyadic grids so tightening is exact", "DESIGN.md 4 C16"),
+    "C17": ("Hypothesis generated search; metamorphic relations (offset, negation, time shift, joint shift, reversal) and single-point locality",
+            "Each base case is re-run after an exact transformation (constant added / values negated / all times shifted by "
+            "whole seconds up to +-1e9 across the epoch / data and spans shifted together / series reversed) and the flag "
+            "arrays must be equal (reversed for reversal); one observation is then changed (other value, present<->missing) "
+            "and flags outside the test's stated neighbourhood must not move.",
+            "transformations exact on the dyadic grid; attenuated-std cases with a spread within 1e-4 of a threshold skipped",
+            "DESIGN.md 4 C17"),
+})
+
 NOT_APPLICABLE = {}
 
 
